@@ -35,6 +35,7 @@ PRISTINE = {}
 def _prepare_job(check, tier):
     """Runs in a forked child: catalogue generation calls the library."""
     seed = core.base_seed()
+    constants = world_b.constants_snapshot()   # before any library call
     cat, twins = gen_b.build_catalogue(check, seed, CAT_SIZE[tier])
     uniq = {}
     for op in cat + twins:
@@ -47,7 +48,7 @@ def _prepare_job(check, tier):
         res = P.results(list(uniq.values()))
     finally:
         P.close()
-    res['__constants__'] = world_b.constants_snapshot()
+    res['__constants__'] = constants
     return cat, res
 
 
@@ -286,11 +287,14 @@ def _drop_thread(trace, t):
     return tr
 
 
-def shrink(check, trace, cls, vbuf=None, max_execs=1500):
-    state = {'n': 0}
+def shrink(check, trace, cls, vbuf=None, max_execs=1500, max_wall=None):
+    import time
+    max_wall = max_wall or float(os.environ.get('VERIF_SHRINK_S', '60'))
+    state = {'n': 0, 't0': time.time()}
 
     def bad(t):
-        if state['n'] >= max_execs:
+        if state['n'] >= max_execs or \
+                time.time() - state['t0'] > max_wall:
             return False
         state['n'] += 1
         try:
@@ -309,7 +313,8 @@ def shrink(check, trace, cls, vbuf=None, max_execs=1500):
         cur = dict(cur, ops=_ddmin_list(cur['ops'], test_ops))
         return cur, state['n'], True
     progress = True
-    while progress and state['n'] < max_execs:
+    while progress and state['n'] < max_execs and \
+            time.time() - state['t0'] < max_wall:
         progress = False
         # threads
         t = 0
